@@ -1,4 +1,142 @@
-/- driver stub (Ws): replaced by the owner of this model group -/
+/-
+  drv_ws — driver for the workspace model (C02, C03, C04).
+  Input line:  `run <op> @h1,h2,… | <op> @… | …`
+  Output line: one token per op  `<result>:<digest p0>:<digest p1>:<digest of the listed handles>`
+  Digests are `calcId` of a JSON rendering of the state, so the harness can compute the
+  same digest from what a fresh session sees of the real workspace.
+-/
+import Signac.Json
+import Signac.Md5
 import Signac.Wire
-open Signac
-def main : IO Unit := driverLoop (fun _ => "bad-op")
+import Signac.PyVal
+import Signac.Workspace
+open Signac Signac.Ws
+
+def resStr : Res → String
+  | .ok => "ok"
+  | .okId i => "ok=" ++ i
+  | .keyError => "KeyError"
+  | .lookupError => "LookupError"
+  | .destExists => "DestinationExistsError"
+  | .runtimeError => "RuntimeError"
+  | .valueError => "ValueError"
+  | .typeError => "TypeError"
+  | .recursionError => "RecursionError"
+  | .undefinedHandle => "undefined"
+
+def jobsVal (js : Jobs) : JVal :=
+  .obj (js.map fun (id, jd) =>
+    (id, .obj [("sp", jd.sp), ("doc", .obj jd.doc),
+               ("files", .obj (jd.files.map fun (n, c) => (n, JVal.str c)))]))
+
+def handlesVal (hs : List (String × Handle)) (names : List String) : JVal :=
+  .obj ((hs.filter fun (n, _) => names.contains n).map fun (n, hd) =>
+    (n, .obj [("p", .int hd.proj), ("id", .str (calcId hd.sp))]))
+
+def strTok (t : String) : Option String :=
+  match t.toList with
+  | 'S' :: hx => unhex (String.ofList hx)
+  | _ => none
+
+def objEntries : JVal → Option (List (String × JVal))
+  | .obj kvs => some kvs
+  | _ => none
+
+def parseOp (ts : List String) : Option Op :=
+  match ts with
+  | "open" :: h :: p :: rest => do
+    let p ← p.toNat?
+    let (v, r) ← parseValue rest
+    if r.isEmpty then pure (.openSp h p v) else none
+  | "openid" :: h :: p :: pre :: rest => do
+    let p ← p.toNat?
+    let pre ← strTok pre
+    match rest with
+    | ["-"] => pure (.openId h p pre none)
+    | _ =>
+      let (v, r) ← parseValue rest
+      if r.isEmpty then pure (.openId h p pre (some v)) else none
+  | ["init", h] => some (.init h)
+  | "dset" :: h :: k :: rest => do
+    let k ← strTok k
+    let (v, r) ← parseValue rest
+    if r.isEmpty then pure (.dset h k v) else none
+  | ["ddel", h, k] => (strTok k).map (.ddel h)
+  | ["dclear", h] => some (.dclear h)
+  | "dreset" :: h :: rest => do
+    let (v, r) ← parseValue rest
+    let kvs ← objEntries v
+    if r.isEmpty then pure (.dreset h kvs) else none
+  | ["put", h, n, c] => do
+    let n ← strTok n
+    let c ← strTok c
+    pure (.put h n c)
+  | ["clear", h] => some (.clear h)
+  | ["reset", h] => some (.reset h)
+  | ["remove", h] => some (.remove h)
+  | "spset" :: h :: k :: rest => do
+    let k ← strTok k
+    let (v, r) ← parseValue rest
+    if r.isEmpty then pure (.spset h k v) else none
+  | ["spdel", h, k] => (strTok k).map (.spdel h)
+  | "spnest" :: h :: k :: k2 :: rest => do
+    let k ← strTok k
+    let k2 ← strTok k2
+    let (v, r) ← parseValue rest
+    if r.isEmpty then pure (.spnest h k k2 v) else none
+  | "spassign" :: h :: rest => do
+    let (v, r) ← parseValue rest
+    if r.isEmpty then pure (.spassign h v) else none
+  | "update" :: h :: ow :: rest => do
+    let (v, r) ← parseValue rest
+    let kvs ← objEntries v
+    if r.isEmpty then pure (.update h kvs (ow == "T")) else none
+  | ["move", h, p] => p.toNat?.map (.move h)
+  | ["clone", h, p, h2] => p.toNat?.map (fun p => .clone h p h2)
+  | ["ucache", p] => p.toNat?.map .ucache
+  | ["rmcache", p] => p.toNat?.map .rmcache
+  | ["session", p] => p.toNat?.map .session
+  | ["copy", h, h2] => some (.copy h h2)
+  | ["deepcopy", h, h2] => some (.deepcopy h h2)
+  | ["pickle", h, h2] => some (.pickle h h2)
+  | ["drop", h] => some (.drop h)
+  | ["plant", p, n] => do
+    let p ← p.toNat?
+    let n ← strTok n
+    pure (.plant p n)
+  | _ => none
+
+/-- split a token list at the separator `|` -/
+def splitBar : List String → List (List String)
+  | [] => [[]]
+  | t :: ts =>
+    match splitBar ts with
+    | [] => [[t]]
+    | g :: gs => if t == "|" then [] :: g :: gs else (t :: g) :: gs
+
+def namesOf (t : String) : List String :=
+  ((String.ofList (t.toList.drop 1)).splitOn ",").filter (fun s => !s.isEmpty)
+
+def runLine (groups : List (List String)) : String :=
+  let rec go (w : World) (gs : List (List String)) (acc : List String) : List String :=
+    match gs with
+    | [] => acc.reverse
+    | g :: rest =>
+      let (opToks, names) := match g.reverse with
+        | last :: init => if last.startsWith "@" then (init.reverse, namesOf last) else (g, [])
+        | [] => (g, [])
+      match parseOp opToks with
+      | none => ("bad-op" :: acc).reverse
+      | some op =>
+        let (w', r) := step calcId w op
+        let out := resStr r ++ ":" ++ calcId (jobsVal w'.p0) ++ ":" ++ calcId (jobsVal w'.p1) ++ ":"
+                   ++ calcId (handlesVal w'.handles names)
+        go w' rest (out :: acc)
+  " ".intercalate (go World.empty groups [])
+
+def stepWs (line : String) : String :=
+  match tokens line with
+  | "run" :: ts => runLine (splitBar ts)
+  | _ => "bad-op"
+
+def main : IO Unit := driverLoop stepWs
